@@ -224,6 +224,41 @@ def gen_expr(rnd, ty, depth):
     return 'date'
 
 
+SCOPE_TEMPLATES = [
+    '(x := %(n)s) + sum(1 for x in orders) + x',
+    '(x := %(n)s) + len([x for x in orders if x.n > 0]) + x',
+    'sum(a.n * b.n for a in orders for b in orders if a.n <= b.n)',
+    'len([a.n + b.n for a in orders for b in orders if a.n < b.n])',
+    'sum(r.n for r in orders for r in orders)',
+    '(m := [r.n for r in orders if r.amount > lim]) and len(m) > 0',
+    '(m := [r for r in orders if r.n > %(k)d]) and m[0].n == %(k)d + 1',
+    'len([[b.n for b in orders if b.n != a.n] for a in orders])',
+    'sum(len([b for b in orders if b.n > a.n]) for a in orders)',
+    '(t := amount * 2) > lim and t < 1000',
+    'next((r.item for r in orders if r.n > %(k)d), "none")',
+    'next((r.n for r in orders if r.n > 5), %(n)s)',
+    '[r.item for r in orders][%(k)d] if len(orders) > %(k)d else "-"',
+    'any(r.n == %(k)d for r in orders) and all(r.amount > 0 for r in orders)',
+    'max(r.amount for r in orders) if orders else 0',
+    'sum([r.amount for r in orders], 0) / (len(orders) or 1)',
+    '(r := 7) + sum(r.n for r in orders) + r',
+    # a filter that rejects rows while the loop variable shadows an outer binding, which is read again afterwards
+    '(x := %(n)s) + len([x for x in orders if x.n > 1]) + x',
+    '(r := 7) + sum(r.n for r in orders if r.n > %(k)d) + r',
+    '(r := 7) + sum(r.n for r in orders if r.n < 2) + r',
+    '[len([r for r in orders if r.n > 1]) + r.n for r in orders]',
+    'sum(len([r for r in orders if r.amount > lim]) + r.n for r in orders)',
+    '[[r.item, [r.n for r in orders if r.n != %(k)d]] for r in orders]',
+    'any(all(r.n > 5 for r in orders if r.n > 1) and r.n == 2 for r in orders)',
+    '[b.n for a in orders if a.n > 1 for b in orders if b.n < a.n]',
+    'sum(a.n for a in orders if a.n > 1 for a in orders if a.n < 2)',
+]
+
+
+def gen_scope(rnd):
+    return rnd.choice(SCOPE_TEMPLATES) % {'n': rnd.choice(['0', '5', 'lim', 'month']), 'k': rnd.randrange(3)}
+
+
 def gen_rowcond(rnd, d):
     return rnd.choice(['r.amount > lim', 'r.amount == txn.amount', 'r.n > %d' % rnd.randrange(3), 'contains(r.item, "dg")',
                        'r.item == "widget"', 'true', 'r.amount < amount', 'r.n %% 2 == %d' % rnd.randrange(2)])
@@ -275,7 +310,7 @@ def record_and_validate(item):
     rnd = random.Random(seed)
     exprs = list(corpus)
     for _ in range(n):
-        exprs.append(gen_expr(rnd, rnd.choice('bbbnsl'), rnd.randint(1, 4)))
+        exprs.append(gen_scope(rnd) if rnd.random() < 0.12 else gen_expr(rnd, rnd.choice('bbbnsl'), rnd.randint(1, 4)))
     recs, srcs = [], {}
     unrep = 0
     for k, src in enumerate(exprs):
